@@ -6,7 +6,7 @@
 set -u
 ID=$1; shift
 S=/verif/seeded/$ID
-E=/scratch/eval
+E=${EVAL_DIR:-/scratch/eval}
 R=$E/repo
 OUT=$S/eval.log
 : > $OUT
